@@ -501,6 +501,8 @@ def fixed_dirs():
         ("empty", {"a.py": "", "b.py": "import a\n"}),
         ("dotted-file", {"a.b.py": "x = 1\n", "c.py": "import a.b\n"}),
         ("dotted-dir", {"p.q/m.py": "z = 3\n", "e.py": "import p.q.m\n"}),
+        ("hint-uncollected", {"a.py": "x = 1 # paroxython: import_internally:zz\n"}),
+        ("hint-collected", {"a.py": "x = 1 # paroxython: import_internally:b\n", "b.py": "y = 2\n"}),
     ]
 
 
